@@ -17,7 +17,13 @@ use rustc_hir::def::DefKind;
 use rustc_hir::def_id::DefId;
 use rustc_interface::interface::Compiler;
 use rustc_middle::mir::{self, Operand, Place, ProjectionElem, Rvalue, StatementKind, TerminatorKind};
-use rustc_middle::ty::print::with_no_trimmed_paths;
+use rustc_middle::ty::print::{with_no_trimmed_paths, with_resolve_crate_name};
+
+macro_rules! np {
+    ($e:expr) => {
+        with_no_trimmed_paths!(with_resolve_crate_name!($e))
+    };
+}
 use rustc_middle::ty::{self, Ty, TyCtxt};
 use rustc_span::Span;
 use std::fmt::Write as _;
@@ -96,12 +102,12 @@ struct Cx<'tcx> {
 }
 
 fn ty_str<'tcx>(t: Ty<'tcx>) -> String {
-    with_no_trimmed_paths!(format!("{}", t))
+    np!(format!("{}", t))
 }
 
 impl<'tcx> Cx<'tcx> {
     fn path(&self, d: DefId) -> String {
-        with_no_trimmed_paths!(self.tcx.def_path_str(d))
+        np!(self.tcx.def_path_str(d))
     }
 
     fn span(&self, sp: Span) -> J {
@@ -216,14 +222,14 @@ impl<'tcx> Cx<'tcx> {
     fn fn_ref(&self, owner: DefId, d: DefId, args: ty::GenericArgsRef<'tcx>) -> Vec<(&'static str, J)> {
         let mut o = vec![
             ("path", s(self.path(d))),
-            ("full", s(with_no_trimmed_paths!(self.tcx.def_path_str_with_args(d, args)))),
+            ("full", s(np!(self.tcx.def_path_str_with_args(d, args)))),
             ("krate", s(self.tcx.crate_name(d.krate).to_string())),
             ("local", J::Bool(d.is_local())),
         ];
         if let Some(inst) = self.resolve(owner, d, args) {
             let rd = inst.def_id();
             o.push(("rpath", s(self.path(rd))));
-            o.push(("rfull", s(with_no_trimmed_paths!(self.tcx.def_path_str_with_args(rd, inst.args)))));
+            o.push(("rfull", s(np!(self.tcx.def_path_str_with_args(rd, inst.args)))));
             o.push(("rkrate", s(self.tcx.crate_name(rd.krate).to_string())));
             o.push(("rlocal", J::Bool(rd.is_local())));
             let shim = !matches!(inst.def, ty::InstanceKind::Item(_));
@@ -241,7 +247,7 @@ impl<'tcx> Cx<'tcx> {
             Operand::Move(p) => J::Obj(vec![("k", s("move")), ("pl", self.place(body, p))]),
             Operand::Constant(c) => {
                 let cty = c.const_.ty();
-                let mut o = vec![("k", s("const")), ("v", s(with_no_trimmed_paths!(format!("{}", c.const_)))), ("ty", s(ty_str(cty)))];
+                let mut o = vec![("k", s("const")), ("v", s(np!(format!("{}", c.const_)))), ("ty", s(ty_str(cty)))];
                 if let ty::FnDef(d, a) = cty.kind() {
                     o.push(("fn", J::Obj(self.fn_ref(owner, *d, a))));
                 }
@@ -254,7 +260,7 @@ impl<'tcx> Cx<'tcx> {
                     let env = ty::TypingEnv::post_analysis(self.tcx, owner);
                     if let Ok(val) = c.const_.eval(self.tcx, env, c.span) {
                         let ev = mir::Const::Val(val, cty);
-                        o.push(("ev", s(with_no_trimmed_paths!(format!("{}", ev)))));
+                        o.push(("ev", s(np!(format!("{}", ev)))));
                     }
                 }
                 J::Obj(o)
@@ -576,7 +582,7 @@ impl<'tcx> Cx<'tcx> {
             }
             let cty = tcx.type_of(did).instantiate_identity().skip_norm_wip();
             let val = match tcx.const_eval_poly(did) {
-                Ok(v) => with_no_trimmed_paths!(format!("{}", mir::Const::Val(v, cty))),
+                Ok(v) => np!(format!("{}", mir::Const::Val(v, cty))),
                 Err(_) => "?".to_string(),
             };
             out.push(J::Obj(vec![("path", s(self.path(did))), ("ty", s(ty_str(cty))), ("value", s(val))]));
@@ -596,6 +602,7 @@ impl Callbacks for Cb {
         let krate = tcx.crate_name(rustc_hir::def_id::LOCAL_CRATE).to_string();
         let ctypes: Vec<String> = tcx.crate_types().iter().map(|c| format!("{:?}", c)).collect();
         let is_test = tcx.sess.opts.test;
+        let src_file = std::env::args().find(|a| a.ends_with(".rs")).unwrap_or_default();
         let mut bodies = vec![];
         for ld in tcx.hir_body_owners() {
             let did = ld.to_def_id();
@@ -619,6 +626,7 @@ impl Callbacks for Cb {
             ("crate", s(krate.clone())),
             ("crate_types", J::Arr(ctypes.iter().map(|c| s(c.clone())).collect())),
             ("is_test", J::Bool(is_test)),
+            ("src", s(src_file.clone())),
             ("n_bodies", n(nb)),
             ("target_features", J::Arr(cfgs)),
             ("adts", cx.adts()),
@@ -627,7 +635,13 @@ impl Callbacks for Cb {
         ]);
         let mut out = String::new();
         root.write(&mut out);
-        let kind = if ctypes.iter().any(|c| c == "Executable") { "bin" } else { "lib" };
+        let kind = if src_file.ends_with("lib.rs") {
+            "lib"
+        } else if ctypes.iter().any(|c| c == "Executable") {
+            "bin"
+        } else {
+            "lib"
+        };
         let file = format!(
             "{}/{}-{}{}-{}.json",
             dir,
